@@ -185,6 +185,13 @@ def handlers : List (String × Handler) := [
       pure ((← getNat it "name"), m))
     let r := getMeasurements (fun (a b : Nat) => a == b) items (← getNat j "n") (← optNat (j.getObjValD "name"))
     pure (exceptToJson (fun (cols : List (List (Option Int))) => Json.arr (cols.map optValsToJson).toArray) r)),
+  ("getMeasurementMatrix", fun j => do
+    let items ← (← getArr j "items").toList.mapM (fun it => do
+      let m : MeasEnc Int := { values := ← parseInts (← it.getObjVal? "values"), indices := ← parseOptInts (it.getObjValD "indices"),
+                               numberOfValues := none }
+      pure ((← getNat it "name"), m))
+    let r := getMeasurementMatrix (fun (a b : Nat) => a == b) items (← getNat j "n") (← optNat (j.getObjValD "name"))
+    pure (exceptToJson (fun (rows : List (List (Option Int))) => Json.arr (rows.map optValsToJson).toArray) r)),
   ("getGroup", fun j => do
     let r := getGroup (← parseGroups (← j.getObjVal? "groups")) (← parseOptInt (j.getObjValD "number")) (← optStr (j.getObjValD "uid"))
     pure (exceptToJson (fun (g : GroupInfo) => (g.number : Json)) r)),
